@@ -92,8 +92,11 @@ Lemma float_compare_all :
   (f_le mw ew a b = 1 <-> f_key mw ew a <= f_key mw ew b) /\ (f_ge mw ew a b = 1 <-> f_key mw ew a >= f_key mw ew b)) /\
   (forall mw ew x, fmt_ok mw ew -> fbits mw ew x ->
   (f_key mw ew x = 0 <-> f_zero mw ew x = true) /\
-  (f_sign mw ew x = 0 -> f_key mw ew x = f_mag mw ew x) /\ (f_sign mw ew x = 1 -> f_key mw ew x = - f_mag mw ew x)).
-Proof. exact (conj f_cmp_nan (conj f_cmp_ord f_key_spec)). Qed.
+  (f_sign mw ew x = 0 -> f_key mw ew x = f_mag mw ew x) /\ (f_sign mw ew x = 1 -> f_key mw ew x = - f_mag mw ew x)) /\
+  (forall mw ew x y, fmt_ok mw ew -> fbits mw ew x -> fbits mw ew y ->
+  (f_key mw ew x < f_key mw ew y <-> f_sval mw ew x < f_sval mw ew y) /\
+  (f_key mw ew x = f_key mw ew y <-> f_sval mw ew x = f_sval mw ew y)).
+Proof. exact (conj f_cmp_nan (conj f_cmp_ord (conj f_key_spec f_key_order))). Qed.
 
 Lemma float_min_max_all :
   (forall mw ew a b, fmt_ok mw ew -> f_nan mw ew a || f_nan mw ew b = true ->
